@@ -61,13 +61,17 @@ def run_case(case):
     z = 0.3 + np.arange(nz) * dz            # zMin != 0
     rgrid = np.array([0.0, 0.25, 0.6])
     eta = [rgrid, np.asarray(bth.greville, dtype=float), z, np.array(VS)]
-    lay = Layout('flux_surface', [1, 1], [0, 3, 1, 2], eta, [0, 0])
+    # the operator tabulates its shifts for the (r, v) block of the Layout it is given: serial and distributed blocks
+    variants = [([1, 1], [0, 0]), ([2, 2], [1, 1]), ([1, 3], [0, 2]), ([3, 1], [1, 0])]
     q = eta[1]
     I = np.indices((nq, nz)).astype(float)
     dense = [np.cos(1.3 * I[0] + 0.4) * (1 + 0.3 * I[1]) + 0.1 * I[1] ** 2, ((7 * I[0] * I[0] + 3 * I[1] + I[0] * I[1]) % 11) - 5.0]
     evals = nontriv = 0
     worst = 0.0
-    for cls in CLASSES:
+    for cls, (vp, vc) in itertools.product(CLASSES, variants):
+        if vp != [1, 1] and cls not in (0.25, 3.0, '-wrap'):
+            continue
+        lay = Layout('flux_surface', vp, [0, 3, 1, 2], eta, vc)
         mag = (nz + 0.25) if cls in ('wrap', '-wrap') else abs(cls)
         dt = mag * dz * (-1.0 if (cls == '-wrap' or (cls not in ('wrap', '-wrap') and cls < 0)) else 1.0)
         try:
@@ -75,8 +79,9 @@ def run_case(case):
         except Exception as e:  # noqa
             V('construct:' + type(e).__name__, '%s dt=%g: %s: %s' % (tag, dt, type(e).__name__, e))
             continue
-        for rI, vI in itertools.product(range(3), range(len(VS))):
-            r, v = rgrid[rI], VS[vI]
+        r0, v0 = int(lay.starts[0]), int(lay.starts[1])
+        for rI, vI in itertools.product(range(int(lay.shape[0])), range(int(lay.shape[1]))):
+            r, v = rgrid[r0 + rI], VS[v0 + vI]
             bz = 1.0 / math.sqrt(1 + (r * iota / R0) ** 2)
             dist = -v * bz * dt
             k0 = math.floor(dist / dz)
@@ -91,7 +96,7 @@ def run_case(case):
                         out[:, zt] += wa * (Ea @ f[:, (zt + a) % nz])
                 return out
             datas = [('const', np.full((nq, nz), 2.5))] + [('dense%d' % k, d) for k, d in enumerate(dense)]
-            full = cls in (0.25, '-wrap') and (rI, vI) in ((0, 4), (2, 1))
+            full = cls in (0.25, '-wrap') and (r0 + rI, v0 + vI) in ((0, 4), (2, 1)) and vp == [1, 1]
             if full:
                 for a, b in itertools.product(range(nq), range(nz)):
                     e = np.zeros((nq, nz))
@@ -112,8 +117,9 @@ def run_case(case):
                 err = np.abs(g - want).max()
                 worst = max(worst, err / tol)
                 if not err <= tol:
-                    V('step-differs-from-formula' + (':impulse' if name.startswith('imp') else ''),
-                      '%s dt=%g r=%g v=%g (displacement %.4g cells) data=%s: max error %.3g (tol %.3g)' % (tag, dt, r, v, dist / dz, name, err, tol))
+                    V('step-differs-from-formula' + (':impulse' if name.startswith('imp') else '') + ('' if vp == [1, 1] else ':distributed-layout'),
+                      '%s dt=%g r=%g v=%g (displacement %.4g cells) layout block of rank %r on process grid %r data=%s: max error %.3g (tol %.3g)' % (
+                          tag, dt, r, v, dist / dz, vc, vp, name, err, tol))
                 if name == 'const' and not np.abs(g - 2.5).max() <= tol:
                     V('constant-not-preserved', '%s dt=%g r=%g v=%g: constant field changed by %.3g' % (tag, dt, r, v, np.abs(g - 2.5).max()))
                 if name == 'dense0':
